@@ -301,6 +301,53 @@ fn run_history(ctx: &mut Ctx, engine: &Engine, labels: &[Label], updates: &[Upd]
             }
         }
     }
+    // final, independent of how the engine mixes its voices: the effective weights are in
+    // force in what is handed to synthesis — the engine's own model view (public `Models`) gives
+    // the weighted sums of the voices' own entries, for the duration and for every stream
+    if nv >= 2 && accepted >= 1 {
+        let within = |got: f64, terms: &[f64]| -> bool {
+            let want: f64 = terms.iter().sum();
+            let scale: f64 = terms.iter().map(|t| t.abs()).sum();
+            (got - want).abs() <= 8.0 * f64::EPSILON * scale + f64::MIN_POSITIVE
+        };
+        let nstate = e.voices.global_metadata().num_states;
+        let voices: Vec<_> = e.voices.iter().cloned().collect();
+        let models = jbonsai::model::Models::new(labels, &e.voices, e.condition.get_interporation_weight());
+        let dur = models.duration();
+        let mut bad: Option<String> = None;
+        'outer: for (li, l) in labels.iter().enumerate() {
+            let per: Vec<_> = voices.iter().map(|v| v.duration_model.get_parameter(2, l).parameters.clone()).collect();
+            for st in 0..nstate {
+                let got = dur[li * nstate + st];
+                let tm: Vec<f64> = (0..nv).map(|v| model.duration[v] * per[v][st].0).collect();
+                let tv: Vec<f64> = (0..nv).map(|v| model.duration[v] * per[v][st].1).collect();
+                if !within(got.0, &tm) || !within(got.1, &tv) {
+                    bad = Some(format!("duration of label {} state {}: {:?}, weighted mean {}", li, st, got, tm.iter().sum::<f64>()));
+                    break 'outer;
+                }
+            }
+            for si in 0..ns {
+                let ms = models.model_stream(si);
+                for st in 0..nstate {
+                    let per: Vec<_> = voices.iter().map(|v| v.stream_models[si].stream_model.get_parameter(st + 2, l).clone()).collect();
+                    let (g, _) = &ms.stream[li * nstate + st];
+                    for (k, mv) in g.iter().enumerate() {
+                        let tm: Vec<f64> = (0..nv).map(|v| model.parameter[si][v] * per[v].parameters[k].0).collect();
+                        let tv: Vec<f64> = (0..nv).map(|v| model.parameter[si][v] * per[v].parameters[k].1).collect();
+                        if !within(mv.0, &tm) || !within(mv.1, &tv) {
+                            bad = Some(format!("stream {} label {} state {} component {}: {:?}, weighted mean {}", si, li, st, k, mv, tm.iter().sum::<f64>()));
+                            break 'outer;
+                        }
+                    }
+                }
+            }
+        }
+        ctx.count("in_force_at_the_model_view_checks", 1.0);
+        if let Some(what) = bad {
+            ctx.violation("accepted-weights-not-in-force-at-synthesis", J::obj().set("voices", descr).set("history", J::from(log.clone())).set("observed", what));
+            return;
+        }
+    }
     if rejected >= 1 && accepted >= 1 {
         ctx.nontrivial(mix(&[hash_str(descr), hash_str(&log.join(";"))]));
     }
@@ -446,6 +493,25 @@ pub fn run(ctx: &mut Ctx) {
                     return;
                 }
             }
+        };
+        // one case in three: the engine's condition has been loaded before, for a voice set of
+        // another size (its first voice alone, or its first two), and is loaded again for this one
+        let (e, d) = if idx % 3 == 1 {
+            let k = if e.voices.len() > 2 && rng.chance(0.5) { 2 } else { 1 };
+            let first: Vec<Arc<jbonsai::model::Voice>> = e.voices.iter().take(k).cloned().collect();
+            let mut c = jbonsai::Condition::default();
+            let ok = jbonsai::model::VoiceSet::new(first).ok().map(|vs| c.load_model(&vs).is_ok()).unwrap_or(false);
+            if k == 2 {
+                let _ = c.get_interporation_weight_mut().set_duration(&[0.25, 0.75]);
+            }
+            if !ok || c.load_model(&e.voices).is_err() {
+                ctx.violation("engine-construction", J::from("condition loaded for a smaller voice set first"));
+                return;
+            }
+            ctx.count("conditions_loaded_twice", 1.0);
+            (Engine::new(e.voices.clone(), c), format!("{} (condition first loaded for its first {} voice(s))", d, k))
+        } else {
+            (e, d)
         };
         let nv = e.voices.len();
         let ns = e.voices.global_metadata().num_streams;
